@@ -26,32 +26,42 @@ CYCLES = [
   'remove_bodies': 'unmarshal_one.*|janet_unmarshal.*|janet_marshal|janet_marshal_(size|int64|int|ptr|byte|bytes|abstract)|janet_env_lookup.*',
   'depth': '(flags & 0xFFFF)', 'limit': 'JANET_RECURSION_GUARD', 'nanbox': False,
   'hooks': [dict(name='marshal', ret='void', params='void *p, JanetMarshalContext *ctx', depth='(ctx->flags & 0xFFFF)', rank=4)],
+  'numbering': {'nextid': 'st->nextid', 'defcount': 'janet_v_count(st->seen_defs)'},
+  # a real writer state: cycle tracking on, up to 2 definitions / environments already numbered (vectors with room for 4)
+  'cycle_pre': 'static MarshalState vc_ms; static JanetBuffer vc_mbuf; static struct { int32_t cap, cnt; void *items[4]; } vc_dv, vc_ev; vc_dv.cap = 4; vc_dv.cnt = nd_uint() % 3; vc_ev.cap = 4; vc_ev.cnt = nd_uint() % 3; vc_ms.buf = &vc_mbuf; vc_ms.seen_defs = (JanetFuncDef **) vc_dv.items; vc_ms.seen_envs = (JanetFuncEnv **) vc_ev.items; vc_ms.nextid = nd_i32() & 0xFFFF; vc_ms.maybe_cycles = 1; vc_ms.rreg = 0; st = &vc_ms;',
   'extra_entries': [
     dict(name='janet_marshal_janet', ret='void', params='JanetMarshalContext *ctx, Janet x', depth='(ctx->flags & 0xFFFF)', rank=4, guarded=False,
          pre='JanetMarshalContext vc_ctx; MarshalState vc_st; vc_ctx.m_state = &vc_st; vc_ctx.flags = nd_int(); ctx = &vc_ctx;'),
   ],
   'members': [
-    dict(name='marshal_one', ret='void', params='MarshalState *st, Janet x, int flags', rank=2, guarded=True, leaf=LEAF_JANET.format(x='x')),
-    dict(name='marshal_one_def', ret='void', params='MarshalState *st, JanetFuncDef *def, int flags', rank=1, guarded=True),
+    dict(name='marshal_one', ret='void', params='MarshalState *st, Janet x, int flags', rank=2, guarded=True, leaf=LEAF_JANET.format(x='x'),
+         num=dict(kind='janet_checktype(x, JANET_ABSTRACT) ? 0 : 1', delta='(janet_checktype(x, JANET_ARRAY) || janet_checktype(x, JANET_TABLE) || janet_checktype(x, JANET_FUNCTION) || janet_checktype(x, JANET_FIBER)) ? 1 : 0')),
+    dict(name='marshal_one_def', ret='void', params='MarshalState *st, JanetFuncDef *def, int flags', rank=1, guarded=True, num=dict(kind='2', delta='1')),
     dict(name='marshal_one_env', ret='void', params='MarshalState *st, JanetFuncEnv *env, int flags', rank=1, guarded=True),
     dict(name='marshal_one_fiber', ret='void', params='MarshalState *st, JanetFiber *fiber, int flags', rank=1, guarded=True),
     dict(name='marshal_one_abstract', ret='void', params='MarshalState *st, Janet x, int flags', rank=1, guarded=False),
   ],
   'mutants': {
-    'marshal_one': [dict(name='proto-edge-no-increment', file='marsh.c', find='marshal_one(st, janet_wrap_table(t->proto), flags + 1);', replace='marshal_one(st, janet_wrap_table(t->proto), flags);', expect='C19')],
-    'marshal_one_def': [dict(name='subdef-no-increment', file='marsh.c', find='marshal_one_def(st, def->defs[i], flags + 1);', replace='marshal_one_def(st, def->defs[i], flags);', expect='C19')],
+    'marshal_one': [dict(name='tuple-numbered-before-children', file='marsh.c', find='            pushint(st, flag);\n            for (i = 0; i < count; i++)\n                marshal_one(st, tup[i], flags + 1);\n            /* Mark as seen AFTER marshaling */\n            MARK_SEEN();', replace='            pushint(st, flag);\n            MARK_SEEN();\n            for (i = 0; i < count; i++)\n                marshal_one(st, tup[i], flags + 1);', expect='C09 numbering'),
+                    dict(name='proto-edge-no-increment', file='marsh.c', find='marshal_one(st, janet_wrap_table(t->proto), flags + 1);', replace='marshal_one(st, janet_wrap_table(t->proto), flags);', expect='C19')],
+    'marshal_one_env': [],
+    'marshal_one_def': [dict(name='def-numbered-after-children', file='marsh.c', find='    /* Add to lookup */\n    janet_v_push(st->seen_defs, def);\n', replace='', expect='C09 numbering'),
+                        dict(name='subdef-no-increment', file='marsh.c', find='marshal_one_def(st, def->defs[i], flags + 1);', replace='marshal_one_def(st, def->defs[i], flags);', expect='C19')],
   }},
  {'name': 'unmarshal', 'file': 'marsh.c', 'link': ['wrap.c'], 'replay': {'kind': 'janet', 'script_file': 'c19_unmarshal_deep.janet', 'timeout': 240},
   'remove_bodies': 'marshal_one.*|janet_marshal.*|janet_unmarshal|janet_unmarshal_(ensure|int|size|int64|ptr|byte|bytes|abstract.*|u32s)|janet_env_lookup.*',
   'depth': '(flags & 0xFFFF)', 'limit': 'JANET_RECURSION_GUARD', 'nanbox': False,
   'hooks': [dict(name='unmarshal', ret='void *', params='JanetMarshalContext *ctx', depth='(ctx->flags & 0xFFFF)', rank=4)],
   # the reader state is a real object over a 24-byte input window with arbitrary contents (the depth obligations do not depend on it)
-  'cycle_pre': 'UnmarshalState vc_ust; uint8_t vc_buf[24]; vc_ust.start = vc_buf; vc_ust.end = vc_buf + 24; st = &vc_ust; data = vc_buf + (nd_int() & 7);',
+  'numbering': {'nextid': 'janet_v_count(st->lookup)', 'defcount': 'janet_v_count(st->lookup_defs)'},
+  'cycle_pre': 'static UnmarshalState vc_ust; uint8_t vc_buf[24]; static struct { int32_t cap, cnt; Janet items[8]; } vc_lv; static struct { int32_t cap, cnt; void *items[8]; } vc_ldv, vc_lev; vc_lv.cap = 8; vc_lv.cnt = nd_uint() % 3; vc_ldv.cap = 8; vc_ldv.cnt = nd_uint() % 3; vc_lev.cap = 8; vc_lev.cnt = nd_uint() % 3; vc_ust.start = vc_buf; vc_ust.end = vc_buf + 24; vc_ust.lookup = vc_lv.items; vc_ust.lookup_defs = (JanetFuncDef **) vc_ldv.items; vc_ust.lookup_envs = (JanetFuncEnv **) vc_lev.items; vc_ust.reg = 0; st = &vc_ust; data = vc_buf + (nd_int() & 7);',
   'members': [
-    dict(name='unmarshal_one', ret='const uint8_t *', params='UnmarshalState *st, const uint8_t *data, Janet *out, int flags', rank=2, guarded=True),
+    dict(name='unmarshal_one', ret='const uint8_t *', params='UnmarshalState *st, const uint8_t *data, Janet *out, int flags', rank=2, guarded=True,
+         num=dict(kind='(data[0] == LB_ABSTRACT || data[0] == LB_THREADED_ABSTRACT) ? 0 : 1',
+                  delta='(data[0] == LB_ARRAY || data[0] == LB_ARRAY_WEAK || data[0] == LB_FUNCTION || data[0] == LB_TABLE || data[0] == LB_TABLE_PROTO || (data[0] >= LB_TABLE_WEAKK && data[0] <= LB_TABLE_WEAKKV_PROTO)) ? 1 : 0')),
     dict(name='unmarshal_one_env', ret='const uint8_t *', params='UnmarshalState *st, const uint8_t *data, JanetFuncEnv **out, int flags', rank=3, guarded=False, bound=2),
-    dict(name='unmarshal_one_def', ret='const uint8_t *', params='UnmarshalState *st, const uint8_t *data, JanetFuncDef **out, int flags', rank=3, guarded=True),
-    dict(name='unmarshal_one_fiber', ret='const uint8_t *', params='UnmarshalState *st, const uint8_t *data, JanetFiber **out, int flags', rank=3, guarded=False),
+    dict(name='unmarshal_one_def', ret='const uint8_t *', params='UnmarshalState *st, const uint8_t *data, JanetFuncDef **out, int flags', rank=3, guarded=True, num=dict(kind='2', delta='1')),
+    dict(name='unmarshal_one_fiber', ret='const uint8_t *', params='UnmarshalState *st, const uint8_t *data, JanetFiber **out, int flags', rank=3, guarded=False, num=dict(kind='1', delta='1')),
     dict(name='unmarshal_one_abstract', ret='const uint8_t *', params='UnmarshalState *st, const uint8_t *data, Janet *out, int flags', rank=1, guarded=False),
   ],
   # abstract-type hooks re-enter through janet_unmarshal_janet with the depth stored in the context
@@ -61,7 +71,9 @@ CYCLES = [
   ],
   'mutants': {
     'unmarshal_one': [dict(name='no-stackcheck', file='marsh.c', find='    uint8_t lead;\n    MARSH_STACKCHECK;\n    MARSH_EOS(st, data);', replace='    uint8_t lead;\n    MARSH_EOS(st, data);', expect='C19')],
-    'unmarshal_one_def': [dict(name='no-stackcheck-def', file='marsh.c', find='    int flags) {\n    MARSH_STACKCHECK;\n    MARSH_EOS(st, data);\n    if (*data == LB_FUNCDEF_REF) {', replace='    int flags) {\n    MARSH_EOS(st, data);\n    if (*data == LB_FUNCDEF_REF) {', expect='C19')],
+    'unmarshal_one_fiber': [],
+    'unmarshal_one_def': [dict(name='def-numbered-after-children', file='marsh.c', find='        def->symbolmap_length = 0;\n        janet_v_push(st->lookup_defs, def);\n', replace='        def->symbolmap_length = 0;\n', expect='C09 numbering'),
+                          dict(name='no-stackcheck-def', file='marsh.c', find='    int flags) {\n    MARSH_STACKCHECK;\n    MARSH_EOS(st, data);\n    if (*data == LB_FUNCDEF_REF) {', replace='    int flags) {\n    MARSH_EOS(st, data);\n    if (*data == LB_FUNCDEF_REF) {', expect='C19')],
     'unmarshal_one_abstract': [dict(name='hook-context-same-depth', file='marsh.c', find='JanetMarshalContext context = {NULL, st, flags + 1, data, at};', replace='JanetMarshalContext context = {NULL, st, flags, data, at};', expect='C19')],
   }},
  {'name': 'gcmark', 'file': 'gc.c', 'link': ['wrap.c'], 'replay': {'kind': 'janet', 'script_file': 'c19_gc_deep.janet', 'timeout': 400},
@@ -133,7 +145,10 @@ def split_params(params):
 
 def gen_cycle(c):
     lines = ['/* generated by gen/gen_C19.py - recursion-measure contracts for cycle "%s" of %s */' % (c['name'], c['file']),
-             '#include "prelude.h"', 'int64_t g_depth; int g_rank;']
+             '#include "prelude.h"', 'int64_t g_depth; int g_rank;',
+             '/* C09 numbering contract: kind 1 = value ids, kind 2 = funcdef ids; checked at the FIRST call of a cycle member made from the entry */',
+             'int g_num_kind, g_num_first; int64_t g_num0; int g_num_delta;']
+    num = c.get('numbering')
     allm = c['members']
     for m in allm:
         dexpr = m.get('depth', c['depth'])
@@ -141,6 +156,9 @@ def gen_cycle(c):
         ret = m['ret']
         body = ['  int64_t d = %s;' % dexpr,
                 '  __CPROVER_assert(0, "REACH-ANY: recursive call site of %s reached");' % m['name']]
+        if num:
+            body.append('  if (g_num_kind && g_num_first) { int64_t cur = (g_num_kind == 1) ? (int64_t)(%s) : (int64_t)(%s); g_num_first = 0;' % (num['nextid'], num['defcount']))
+            body.append('    __CPROVER_assert(cur == g_num0 + g_num_delta, "C09 numbering: a value/definition receives its reference number at the point the format prescribes relative to its children (containers that can be cyclic and definitions BEFORE their first child, tuples and structs AFTER their children) - the same point on the writing and the reading side"); }')
         cond = 'd > g_depth || (d == g_depth && (%d < g_rank || (%s)))' % (m['rank'], leaf)
         if m.get('self_ok'):
             cond = '(%s) || (d == g_depth && g_rank == %d)' % (cond, m['rank'])
@@ -173,16 +191,20 @@ def gen_cycle(c):
             post = ' __CPROVER_assert((int64_t)(%s) == vc_saved, "C19 %s: the shared depth counter is restored on normal return"); __CPROVER_assert(0, "REACH-ANY: %s returns normally");' % (c['restore'], m['name'], m['name'])
             pre = pre + ' int64_t vc_saved = (int64_t)(%s);' % c['restore'] if False else pre
         save = (' int64_t vc_saved = (int64_t)(%s);' % c['restore']) if (c.get('restore') and m in allm) else ''
-        lines.append('void h_%s(void) { %s %s %s g_depth = %s; g_rank = %d; %s%s %s__entry(%s);%s }' % (
-            m['name'], decl, c.get('global_depth', ''), pre, dexpr, m['rank'], assume, save, m['name'], ', '.join(names), post))
+        numset = ''
+        if num and m.get('num'):
+            nk = m['num']
+            numset = ' g_num_kind = (%s); g_num_first = 1; g_num0 = (g_num_kind == 1) ? (int64_t)(%s) : (int64_t)(%s); g_num_delta = (%s);' % (nk['kind'], num['nextid'], num['defcount'], nk['delta'])
+        lines.append('void h_%s(void) { %s %s %s g_depth = %s; g_rank = %d; %s%s%s %s__entry(%s);%s }' % (
+            m['name'], decl, c.get('global_depth', ''), pre, dexpr, m['rank'], assume, save, numset, m['name'], ', '.join(names), post))
         rc = ['%s:vc_depth_%s' % (x['name'], x['name']) for x in allm]
-        u = {'id': 'rec.%s.%s' % (c['name'], m['name']), 'props': ['C19'], 'tier': 'quick', 'class': 'bounded', 'group': 'rec.' + c['name'],
+        u = {'id': 'rec.%s.%s' % (c['name'], m['name']), 'props': ['C19', 'C09'] if (c.get('numbering') and m.get('num')) else ['C19'], 'tier': 'quick', 'class': 'bounded', 'group': 'rec.' + c['name'],
              'bound': 'loops unwound 2x without unwinding assertion (depth terms are not assigned in loops); every recursive call site must be reached in some unit of the cycle',
              'clause': 'every call of a member of the %s recursion cycle made from %s strictly increases the measure (depth, -rank) and unguarded members are entered only below the limit' % (c['name'], m['name']),
              'src': [c['file']], 'link': c.get('link', []), 'harness': ['gen/rec_%s.c' % c['name']], 'entry': 'h_' + m['name'], 'mode': 'plain',
              'functions': [m['name']], 'replace_calls': rc, 'replace_calls2': ['%s__entry:%s' % (m['name'], m['name'])],
-             'remove_bodies': c['remove_bodies'], 'checks': [], 'unwind': 2, 'unwinding_assertions': False, 'reach': False, 'min_obligations': 0,
-             'only': '^\\S+ C19 ', 'timeout': 240, 'nanbox': c.get('nanbox', True), 'genbody_options': c.get('genbody_options', 'nondet-return'),
+             'remove_bodies': c['remove_bodies'], 'checks': [], 'unwind': 2, 'unwinding_assertions': False, 'reach': False, 'min_obligations': 0, 'min_reach_any': 1,
+             'only': '^\\S+ (C19|C09) ', 'timeout': 240, 'nanbox': c.get('nanbox', True), 'genbody_options': c.get('genbody_options', 'nondet-return'),
              'assumes': ['helpers outside the unit return arbitrary values; pointers given to the entry member are arbitrary (pointer checks are off in these units)']}
         if m.get('self_ok'):
             u['assumes'].append('%s: direct self-recursion at equal depth is accepted because %s' % (m['name'], m['self_ok']))
